@@ -8,7 +8,15 @@ check('C02', 'complete enumeration of the vendored spec corpus against expected 
       'Trusts the vendored corpus (checksum pinned) and vf/oracle/htmlnorm.py (port of commonmark-spec normalize.py).',
       'DESIGN.md 5/C02')
 
+check('C06', 'exhaustive small-alphabet enumeration + Hypothesis strings against an independent reference model of the spec delimiter algorithm',
+      'enumeration-pool + hypothesis-sharded',
+      'All strings over {a,space,*,_,.} up to length 8 (10 thorough), {a,*} and {a,_} up to 14 (17), {a,*,_} up to 10 (13) and '
+      'random wide-alphabet strings are rendered and compared with an executable model written from the spec text; the enumerated '
+      'parts are complete over their finite domains, the rest is sampling.',
+      'Trusts vf/oracle/emphasis.py (validated at start-up on the >100 eligible spec emphasis examples) and unicodedata.',
+      'DESIGN.md 5/C06')
+
 _PENDING = 'check not built yet in this revision (work in progress; technique applies, see DESIGN.md section 5)'
-for _p in ['C01', 'C03', 'C04', 'C05', 'C06', 'C07', 'C08', 'C09', 'C10', 'C11', 'C12', 'C13', 'C14', 'C15',
+for _p in ['C01', 'C03', 'C04', 'C05', 'C07', 'C08', 'C09', 'C10', 'C11', 'C12', 'C13', 'C14', 'C15',
            'C16', 'C17', 'C18', 'C19']:
     NOT_YET[_p] = _PENDING
